@@ -11,8 +11,8 @@ TECHNIQUE = ('effect analysis (barrier oracles read no scaling state), decision 
              'barrier derivatives)')
 EXPLANATION = (
     "That the derivative formulas are the derivatives of the stated barriers (which would need symbolic differentiation), the "
-    "third-order correction, conjugacy proper (grad f*(s) solves grad f(-g) = -s) and everything about the generalised power "
-    "cone's formulas (element-wise loops) are NOT decided. Decided on the MIR of the current tree: (R1) for the "
+    "third-order correction, conjugacy proper (grad f*(s) solves grad f(-g) = -s; only the Newton start point is compared with its "
+    "sibling) and everything about the generalised power cone's formulas (element-wise loops) are NOT decided. Decided on the MIR of the current tree: (R1) for the "
     "exponential, power and generalised power cones the membership tests, barrier functions and the primal gradient "
     "are functions of their argument and construction-time constants only - they read no field that the scaling "
     "update writes (declared scratch excepted); (R2) the primal-dual scaling formula is used only under the four "
@@ -24,7 +24,11 @@ EXPLANATION = (
     "values of log / powf / the Newton and Wright-omega roots - a necessary condition of being the derivatives of a "
     "3-logarithmically-homogeneous barrier resp. of its conjugate; (R5) the power cone's membership tests, dual barrier, "
     "gradient and Hessian have the parities that the symmetry s3 -> -s3 of the cone implies; (R6) unit_initialization "
-    "overwrites both of its vectors wholly on every path, so the start point does not depend on a previous solve.")
+    "overwrites both of its vectors wholly on every path, so the start point does not depend on a previous solve; (R7) the "
+    "membership tests of the exponential, power and generalised power cones return true only under the sign conditions of "
+    "the cone (the domain of their logarithms) and a positive residual; (R8) the Newton start point of the 3-d power cone equals "
+    "the generalised power cone's start point specialised to exponents (alpha, 1-alpha) as a rational function with identified "
+    "radicands (finding F7, fixed: psi was hard-wired to its alpha = 1/2 value).")
 ASSUMPTIONS = ['rustc MIR construction and trait resolution are correct',
                'R4: identities over the reals; log(a b) = log a + log b and omega + log omega = x for omega = wright_omega(x)']
 
@@ -400,6 +404,120 @@ def reflection_symmetry(rep, F, E, tag, rid='C14.R5'):
     R.guard(body)
 
 
+# ---------------------------------------------------------------------------
+# membership tests: sign guards of the logarithm arguments
+# ---------------------------------------------------------------------------
+MEMBERSHIP = {
+    ('ExponentialCone', 'is_primal_feasible'): ['lt(zero(), arg2[2_usize])', 'lt(zero(), arg2[1_usize])'],
+    ('ExponentialCone', 'is_dual_feasible'): ['lt(zero(), arg2[2_usize])', 'lt(arg2[0_usize], zero())'],
+    ('PowerCone', 'is_primal_feasible'): ['lt(zero(), arg2[0_usize])', 'lt(zero(), arg2[1_usize])'],
+    ('PowerCone', 'is_dual_feasible'): ['lt(zero(), arg2[0_usize])', 'lt(zero(), arg2[1_usize])'],
+}
+
+
+def membership_guards(rep, F, tag, rid='C14.R7'):
+    """K_exp = cl{s1 log(s2/s1) >= s0, s1, s2 > 0}, K_exp* = {z1 - z0 - z0 log(-z2/z0) >= 0, z0 < 0, z2 > 0}, K_pow needs
+    its first two coordinates positive.  The sign conditions are part of the cone: logsafe returns -inf on a non-positive
+    argument and s1 * (-inf) = +inf for s1 < 0, so a test that relies on the residual alone accepts points outside."""
+    R = rep.rule(rid, 'membership tests of the exponential and power cones return true only under the sign conditions of the cone and a positive residual')
+
+    def body():
+        n = 0
+        for (K, nm), need in MEMBERSHIP.items():
+            f = F.one(name=nm, adt=K)
+            trues = [l for l in Walker(f, cut_loops=True).leaves() if l[1][0] == 'c' and l[1][1] == 1]
+            R.check(len(trues) >= 1, 'accepting-path|%s::%s%s' % (K, nm, tag), 'no path returns true', f.loc())
+            for val, ret, ev, tr in trues:
+                n += 1
+                missing = [a for a in need if val.get(a) != 1]
+                res = [k for k, v in val.items() if k.startswith('lt(zero(), sub(') and v == 1]
+                R.check(not missing and len(res) >= 1, 'guards|%s::%s%s' % (K, nm, tag),
+                        '%s::%s returns true on a path without %s%s: points outside the cone are accepted (the backtracking line search then '
+                        'steps out of the cone)' % (K, nm, missing or '', '' if res else ' a positive-residual test'), f.loc())
+        for nm in ('is_primal_feasible', 'is_dual_feasible'):
+            f = F.one(name=nm, adt='GenPowerCone')
+            for val, ret, ev, tr in Walker(f, cut_loops=True).leaves():
+                if ret[0] == 'c' and ret[1] == 1:
+                    n += 1
+                    allpos = [k for k, v in val.items() if k.startswith('all(iter(index(arg2, RangeTo::RangeTo(dim1(self))))') and v == 1]
+                    res = [k for k, v in val.items() if k.startswith('lt(zero(), sub(') and v == 1]
+                    R.check(len(allpos) == 1 and len(res) >= 1, 'guards|GenPowerCone::%s%s' % (nm, tag),
+                            'GenPowerCone::%s returns true without testing that all of the first dim1 coordinates are positive / without a positive residual' % nm, f.loc())
+            cl = [canon(g.sym_local(0)) for g in F.closures_of.get(f.key, [])]
+            R.check(any(c_ in ('lt(zero(), arg2)', 'lt(zero(), deref(arg2))') for c_ in cl), 'genpow-positive-closure|%s%s' % (nm, tag),
+                    'GenPowerCone::%s: the positivity closure is %s' % (nm, cl), f.loc())
+        R.check(n >= 6, 'membership-count' + tag, 'only %d accepting paths analysed' % n)
+
+    R.guard(body)
+
+
+# ---------------------------------------------------------------------------
+# sibling specialisation: K_pow(alpha) is K_genpow((alpha, 1-alpha), dim2 = 1)
+# ---------------------------------------------------------------------------
+from engine.linform import P_eval, R_eval, R_atoms
+
+
+def newton_start_siblings(rep, F, E, tag):
+    """The primal gradient map needs the root of the same scalar equation in both cones; the one-sided Newton iteration
+    converges only from a start x0 with f(x0) > 0 and stops at x0 otherwise.  The generalised power cone's start is
+    x0 = -1/r + (psi r + sqrt((phi/r^2 + psi^2 - 1) phi)) / (phi - r^2), psi = 1/sum(alpha_i^2); the 3-d cone must use the same
+    start with psi = 1/(alpha^2 + (1-alpha)^2) (psi = 2 is the alpha = 1/2 case only)."""
+    R = rep.rule('C14.R8', 'the Newton start of the 3-d power cone is the generalised power cone\'s start specialised to (alpha, 1-alpha)')
+
+    def body():
+        fp = F.one(name='_newton_raphson_powcone')
+        fg = F.one(name='_newton_raphson_genpowcone')
+
+        def start(f, names):
+            reg = {}
+
+            def atoms(k, s_):
+                if k in names:
+                    return ('S', P_atom(names[k]))
+                return None
+            I = LFSplit(F, E, f, atoms, reg)
+            x0 = None
+            for val, ret, st in I.run({}):
+                x0 = st.get('var:x0', x0)
+            return x0, reg
+        xp, regp = start(fp, {'arg1': 'r', 'arg2': 'phi', 'arg3': 'alpha'})
+        xg, regg = start(fg, {'arg1': 'r', 'arg3': 'phi', 'arg5': 'PSI'})
+        ok = xp is not None and xg is not None and xp[0] == 'S' and xg[0] == 'S'
+        R.check(ok, 'start-evaluated' + tag, 'could not evaluate the start points (%s, %s)' % (xp and xp[0], xg and xg[0]), fp.loc())
+        if not ok:
+            return
+        al = RatF(P_atom('alpha'))
+        one = RatF(P_const(1))
+        psi = one / (al * al + (one - al) * (one - al))
+        sub = lambda a: psi if a == 'PSI' else None
+        rp = to_ratf(xp[1], regp)
+        rg = R_eval(to_ratf(xg[1], regg), sub)
+        # identify square roots by their radicands (as rational functions)
+        rads = []
+        for a in sorted(R_atoms(rp, 'sqrt'), key=str):
+            rads.append((a, to_ratf(regp[a], regp)))
+        for a in sorted(R_atoms(rg, 'sqrt'), key=str):
+            rads.append((a, R_eval(to_ratf(regg[a], regg), sub)))
+        classes = []
+        name = {}
+        for a, rad in rads:
+            for i_, (rep_rad) in enumerate(classes):
+                if (rad - rep_rad).is_zero():
+                    name[a] = 'SQ%d' % i_
+                    break
+            else:
+                classes.append(rad)
+                name[a] = 'SQ%d' % (len(classes) - 1)
+        ren = lambda a: RatF(P_atom(name[a])) if a in name else None
+        d = R_eval(rp, ren) - R_eval(rg, ren)
+        R.check(d.is_zero(), 'start-agrees' + tag,
+                '_newton_raphson_powcone starts at an x0 that differs from the generalised power cone\'s start specialised to (alpha, 1-alpha) '
+                '(difference numerator %s): for alpha != 1/2 the start lies to the right of the root, the one-sided iteration stops at once and '
+                'gradient_primal is not the conjugate gradient map (error 1e-4 .. 4e-2 measured)' % P_fmt(d.n)[:160], fp.loc())
+
+    R.guard(body)
+
+
 def run(ctx, rep, tier):
     for cfg in (CONFIGS_THOROUGH if tier == 'thorough' else CONFIGS):
         F = ctx.facts(cfg)
@@ -410,6 +528,8 @@ def run(ctx, rep, tier):
         update_order(rep, F, E, tag)
         euler_identities(rep, F, E, tag)
         reflection_symmetry(rep, F, E, tag)
+        membership_guards(rep, F, tag)
+        newton_start_siblings(rep, F, E, tag)
         R6 = rep.rule('C14.R6', 'unit initialisation overwrites both vectors of every cone wholly (the documented start point is reached on every solve, not only the first)')
         from . import c05
         R6.guard(lambda: c05.unit_init_must_write(R6, F, tag))
